@@ -20,6 +20,7 @@ type G struct {
 	exited    chan struct{}
 	held      map[*mutexState]int // lock -> mode (1 shared, 2 exclusive) for lockset analysis
 	parent    *G
+	vc        vclock
 	helper    bool
 
 	// channel hand-off slots
@@ -200,6 +201,12 @@ func (m *Machine) spawn(fr *frame, pos token.Pos, fn Value, args []Value) {
 		g.name = fmt.Sprint(fn)
 	}
 	m.gs = append(m.gs, g)
+	if m.lockset != nil && m.cur != nil {
+		pv := m.vcOf(m.cur)
+		g.vc = pv.copy()
+		g.vc[g.id] = 1
+		pv[m.cur.id]++
+	}
 	go func() {
 		defer close(g.exited)
 		defer func() { recover() }() // killG during teardown
@@ -339,6 +346,7 @@ func (m *Machine) chanSend(fr *frame, c *Chan, v Value, pos token.Pos) {
 	if c.closed {
 		panic(targetPanic{v: Iface{t: m.P.runtimeErrorString, v: MkStr("send on closed channel")}, pos: m.pos(pos)})
 	}
+	m.hbRelease(c)
 	if len(c.recvq) > 0 {
 		r := c.recvq[0]
 		c.recvq = c.recvq[1:]
@@ -363,6 +371,7 @@ func (m *Machine) chanRecv(fr *frame, c *Chan, pos token.Pos) (Value, bool) {
 	if m.schedChans {
 		m.schedPoint()
 	}
+	defer m.hbAcquire(c)
 	if c == nil {
 		m.block("receive on nil channel")
 		return nil, false
@@ -402,6 +411,7 @@ func (m *Machine) chanClose(fr *frame, c *Chan, pos token.Pos) {
 	if c.closed {
 		panic(targetPanic{v: Iface{t: m.P.runtimeErrorString, v: MkStr("close of closed channel")}, pos: m.pos(pos)})
 	}
+	m.hbRelease(c)
 	c.closed = true
 	for _, r := range c.recvq {
 		r.recvVal = zero(c.elem)
@@ -439,9 +449,12 @@ func (m *Machine) lockMutex(p *Value, exclusive bool, what string) {
 	if exclusive {
 		m.waitUntil(func() bool { return ms.writer == nil && len(ms.readers) == 0 }, what)
 		ms.writer = m.cur
+		m.hbAcquire(ms)
+		m.hbAcquire(&ms.readers) // readers' releases
 	} else {
 		m.waitUntil(func() bool { return ms.writer == nil }, what)
 		ms.readers[m.cur]++
+		m.hbAcquire(ms) // writers' releases only
 	}
 	if m.cur.held == nil {
 		m.cur.held = map[*mutexState]int{}
@@ -459,11 +472,13 @@ func (m *Machine) unlockMutex(fr *frame, p *Value, exclusive bool) {
 		if ms.writer == nil {
 			panic(targetPanic{v: Iface{t: m.P.runtimeErrorString, v: MkStr("sync: unlock of unlocked mutex")}, pos: "sync"})
 		}
+		m.hbRelease(ms)
 		ms.writer = nil
 	} else {
 		if len(ms.readers) == 0 {
 			panic(targetPanic{v: Iface{t: m.P.runtimeErrorString, v: MkStr("sync: RUnlock of unlocked RWMutex")}, pos: "sync"})
 		}
+		m.hbRelease(&ms.readers)
 		// Go allows another goroutine to RUnlock; prefer the current one
 		g := m.cur
 		if ms.readers[g] == 0 {
@@ -487,108 +502,141 @@ func (m *Machine) unlockMutex(fr *frame, p *Value, exclusive bool) {
 }
 
 // ---------------------------------------------------------------------------
-// lockset (Eraser-style) bookkeeping: while tracking is on, every access to a memory cell,
-// map or slice backing array records the accessing goroutine and intersects the set of locks
-// held (a write needs the lock exclusively). A location accessed by two goroutines, written
-// at least once, with no common lock is a race candidate — over all feasible paths explored,
-// not just executed schedules. Candidates are confirmed natively with the race detector.
+// Race detection by happens-before (vector clocks, in the style of FastTrack / the Go race
+// detector), active between verifLockset(true) and verifLockset(false). Every goroutine
+// carries a vector clock; mutex unlock/lock, RWMutex (readers acquire the writers' releases,
+// a writer acquires everybody's), atomics, channel operations, WaitGroup Done/Wait and
+// goroutine start are release/acquire edges. Every access to a memory cell, map or slice
+// backing array is checked against the last write and the reads since: two accesses to the
+// same location, at least one a write, not ordered by happens-before, are a data race.
+// Unlike a timing-based check this does not need the two accesses to be adjacent in the
+// explored schedule, so every explored interleaving stands for all timings with the same
+// synchronisation order. Reports are confirmed natively with the race detector.
 
-// Eraser's state machine per location: virgin -> exclusive (one goroutine; initialisation
-// before publication is not a race) -> shared (read by others) -> shared-modified (written
-// after becoming shared). Lockset refinement starts when the location becomes shared; only
-// shared-modified locations with an empty lockset are candidates.
+type vclock map[int]int
+
+func (v vclock) copy() vclock {
+	n := vclock{}
+	for k, x := range v {
+		n[k] = x
+	}
+	return n
+}
+
+func (v vclock) join(o vclock) {
+	for k, x := range o {
+		if x > v[k] {
+			v[k] = x
+		}
+	}
+}
+
+type epoch struct {
+	g, c int
+	pos  string
+}
+
 type cellInfo struct {
-	state    int // 0 virgin, 1 exclusive, 2 shared, 3 shared-modified
-	owner    int
-	cand     map[*mutexState]int
-	gs       map[int]bool
-	writePos string
-	otherPos string
+	w     epoch
+	hasW  bool
+	reads map[int]epoch
 }
 
 type locksetState struct {
 	cells map[interface{}]*cellInfo
+	syncs map[interface{}]vclock // release clocks of sync objects
+	races []string
+	seen  map[string]bool
 }
 
 func newLockset() *locksetState {
-	return &locksetState{cells: map[interface{}]*cellInfo{}}
+	return &locksetState{cells: map[interface{}]*cellInfo{}, syncs: map[interface{}]vclock{}, seen: map[string]bool{}}
 }
+
+func (m *Machine) vcOf(g *G) vclock {
+	if g.vc == nil {
+		g.vc = vclock{g.id: 1}
+	}
+	return g.vc
+}
+
+// hbRelease: the current goroutine publishes its clock on a sync object.
+func (m *Machine) hbRelease(obj interface{}) {
+	if m.lockset == nil || m.cur == nil {
+		return
+	}
+	vc := m.vcOf(m.cur)
+	s := m.lockset.syncs[obj]
+	if s == nil {
+		s = vclock{}
+		m.lockset.syncs[obj] = s
+	}
+	s.join(vc)
+	vc[m.cur.id]++
+}
+
+// hbAcquire: the current goroutine learns what was published on a sync object.
+func (m *Machine) hbAcquire(obj interface{}) {
+	if m.lockset == nil || m.cur == nil {
+		return
+	}
+	if s := m.lockset.syncs[obj]; s != nil {
+		m.vcOf(m.cur).join(s)
+	}
+}
+
+func (ls *locksetState) allocated(m *Machine, cell *Value)       {}
+func (ls *locksetState) allocatedObj(m *Machine, obj interface{}) {}
 
 func (ls *locksetState) access(m *Machine, cell interface{}, write bool, pos token.Pos) {
 	if m.cur == nil {
 		return
 	}
+	g := m.cur.id
+	vc := m.vcOf(m.cur)
 	ci := ls.cells[cell]
 	if ci == nil {
-		ci = &cellInfo{gs: map[int]bool{}}
+		ci = &cellInfo{reads: map[int]epoch{}}
 		ls.cells[cell] = ci
 	}
-	g := m.cur.id
-	ci.gs[g] = true
-	held := func() map[*mutexState]int {
-		h := map[*mutexState]int{}
-		for ms, mode := range m.cur.held {
-			if write && mode < 2 {
-				continue
-			}
-			h[ms] = mode
+	where := ""
+	report := func(kind string, other epoch) {
+		if where == "" {
+			where = m.pos(pos)
 		}
-		return h
+		msg := kind + " at " + where + " (goroutine " + fmt.Sprint(g) + ") is not ordered after the " + other.pos + " (goroutine " + fmt.Sprint(other.g) + ")"
+		if !ls.seen[msg] {
+			ls.seen[msg] = true
+			ls.races = append(ls.races, msg)
+		}
 	}
-	switch ci.state {
-	case 0:
-		ci.state, ci.owner = 1, g
-		return
-	case 1:
-		if g == ci.owner {
-			return
-		}
-		ci.cand = held()
+	if ci.hasW && ci.w.g != g && ci.w.c > vc[ci.w.g] {
 		if write {
-			ci.state = 3
-			ci.writePos = m.pos(pos)
+			report("write", epoch{ci.w.g, ci.w.c, "write at " + ci.w.pos})
 		} else {
-			ci.state = 2
-			ci.otherPos = m.pos(pos)
-		}
-		return
-	}
-	h := held()
-	for k := range ci.cand {
-		if _, ok := h[k]; !ok {
-			delete(ci.cand, k)
+			report("read", epoch{ci.w.g, ci.w.c, "write at " + ci.w.pos})
 		}
 	}
 	if write {
-		if ci.state == 2 {
-			ci.state = 3
+		for rg, r := range ci.reads {
+			if rg != g && r.c > vc[rg] {
+				report("write", epoch{rg, r.c, "read at " + r.pos})
+			}
 		}
-		if ci.writePos == "" {
-			ci.writePos = m.pos(pos)
-		}
-	} else if ci.otherPos == "" {
-		ci.otherPos = m.pos(pos)
+		ci.w = epoch{g, vc[g], m.pos(pos)}
+		ci.hasW = true
+		ci.reads = map[int]epoch{}
+	} else {
+		ci.reads[g] = epoch{g, vc[g], m.pos(pos)}
 	}
 }
 
-// candidates lists the race candidates found so far.
+// candidates lists the races found so far.
 func (ls *locksetState) candidates() []string {
-	var out []string
-	seen := map[string]bool{}
-	for _, ci := range ls.cells {
-		if ci.state != 3 || len(ci.cand) > 0 {
-			continue
-		}
-		msg := "written at " + ci.writePos
-		if ci.otherPos != "" {
-			msg += ", also accessed at " + ci.otherPos
-		}
-		msg += fmt.Sprintf(" by %d goroutines with no common lock", len(ci.gs))
-		if !seen[msg] {
-			seen[msg] = true
-			out = append(out, msg)
-		}
-	}
+	out := append([]string(nil), ls.races...)
 	sort.Strings(out)
+	if len(out) > 4 {
+		out = out[:4]
+	}
 	return out
 }
